@@ -179,7 +179,70 @@ def tasks(tier, seed):
     # both transverse axes Bloch as well (several periodic axes in one scene)
     out["bloch/axis1/m2/BBBBBB/e1m1"] = Task(_task(dict(axis=1, m=2, bnd=(B, B, B), eps=1, mu=1, sigE=None, sigH=None)), max_paths=256)
     # full-tensor media on a Bloch axis (the 9-component branch of update_E pads curl(H) through the boundary hook)
-    out["bloch/axis0/m2/BBooEM/e9m1"] = Task(_task(dict(axis=0, m=2, bnd=(B, (None, None), ("pec", "pmc")), eps=9, mu=1, sigE=None, sigH=None)), max_paths=256)
-    out["bloch/axis1/m3/ooBBEM/e9m3"] = Task(_task(dict(axis=1, m=3, bnd=((None, None), B, ("pec", "pmc")), eps=9, mu=3, sigE=None, sigH=None)), max_paths=256)
+    oo = (None, None)
+    out["bloch/axis0/m2/BBoooo/e9mscalar"] = Task(_task(dict(axis=0, m=2, bnd=(B, oo, oo), eps=9, mu="scalar", sigE=None, sigH=None)), max_paths=256)
+    out["bloch/axis1/m2/ooBBoo/e9mscalar"] = Task(_task(dict(axis=1, m=2, bnd=(oo, B, oo), eps=9, mu="scalar", sigE=None, sigH=None)), max_paths=256)
+    out["bloch/axis2/m2/ooooBB/e9mscalar"] = Task(_task(dict(axis=2, m=2, bnd=(oo, oo, B), eps=9, mu="scalar", sigE=None, sigH=None)), max_paths=256)
     out["periodic/axis2/m2/PPPPPP/e9m9"] = Task(_task(dict(axis=2, m=2, bnd=(P, P, P), eps=9, mu=9, sigE=None, sigH=None)), max_paths=256)
     return out
+
+
+# ---------------------------------------------------------------------------------------------
+# replay on the real code (real JAX, concrete arrays)
+
+
+def replay(key, obligation, witness):
+    """REAL update_E / update_H under real JAX on a concrete N-cell domain and on its m-fold supercell (materials
+    tiled, fields tiled with the Bloch phase exp(i k L)^q per copy; K.concrete_scene uses k = 0.37e8 rad/m on
+    Bloch axes): compares the supercell's half steps with the phase-tiled half steps of the small domain"""
+    import jax.numpy as jnp
+    import numpy as np
+
+    import fdtdx.fdtd.update as U
+    from fdtdx.fdtd.container import ObjectContainer
+
+    spec = K.parse_spec((witness or {}).get("notes"))
+    if not spec:
+        return False, "witness carries no configuration"
+    ax, m = int(spec["axis"]), int(spec["m"])
+    cplx = any("bloch" in p for p in spec["bnd"])
+    details = []
+    for attempt in range(2):
+        small_shape = [3, 2, 4] if attempt == 0 else [2, 3, 3]
+        w = {"scalars": {f"N{c}": small_shape[i] for i, c in enumerate("xyz")}}
+        sp = dict(bnd=spec["bnd"], eps=spec["eps"], mu=spec["mu"], sigE=spec.get("sigE"), sigH=spec.get("sigH"), complex=cplx)
+        shape, cfg, objs, arr, rng = K.concrete_scene(sp, w, seed=attempt)
+        big_shape = list(shape)
+        big_shape[ax] *= m
+        wb = {"scalars": {f"N{c}": big_shape[i] for i, c in enumerate("xyz")}}
+        _, cfgb, objsb, arrb, _ = K.concrete_scene(sp, wb, seed=attempt, max_dim=32)
+        phi = 1.0
+        for o in objs:
+            if getattr(o, "needs_complex_fields", False) and o.axis == ax:
+                phi = complex(np.asarray(o.get_bloch_phase(shape, cfg.uniform_spacing())))
+
+        def tile(X, phase):
+            X = np.asarray(X)
+            if X.ndim == 0:
+                return X
+            parts = [X * (phi**q if phase else 1.0) for q in range(m)]
+            return np.concatenate(parts, axis=1 + ax)
+
+        def tmat(X):
+            return X if X is None or not hasattr(X, "shape") or np.ndim(X) == 0 else jnp.asarray(tile(X, False))
+
+        arrb = arrb.aset("fields->E", jnp.asarray(tile(arr.fields.E, True))).aset("fields->H", jnp.asarray(tile(arr.fields.H, True)))
+        for nm in ("inv_permittivities", "inv_permeabilities", "electric_conductivity", "magnetic_conductivity"):
+            arrb = arrb.aset(nm, tmat(getattr(arr, nm)))
+        oc, ocb = ObjectContainer(object_list=objs, volume_idx=0), ObjectContainer(object_list=objsb, volume_idx=0)
+        t = jnp.asarray(1, dtype=jnp.int32)
+        bad = False
+        for hname, fn in (("update_E", U.update_E), ("update_H", U.update_H)):
+            s1, b1 = fn(t, arr, oc, cfg, True), fn(t, arrb, ocb, cfgb, True)
+            dE = K.max_abs_diff(np.asarray(b1.fields.E), tile(s1.fields.E, True))
+            dH = K.max_abs_diff(np.asarray(b1.fields.H), tile(s1.fields.H, True))
+            details.append(f"attempt {attempt}: N-cell shape {tuple(shape)}, m={m} along axis {ax}, phi={phi:.4f}: {hname}: |dE|={dE:.3e} |dH|={dH:.3e}")
+            bad |= dE > 1e-9 or dH > 1e-9
+        if bad:
+            return True, "\n".join(details)
+    return False, "\n".join(details)
